@@ -51,9 +51,11 @@ def gen_facts(tier):
     # notation) and that the static result always has room for capacity + 1 characters.
     exps = [0, 1, 3, 8, 15] if tier == "quick" else list(range(0, 40))
     for R in ([I8, U8, I16, I32, U32, I64, U64] if tier == "quick" else ALL64):
-        for radix in (2, 10):
+        for radix in (2, 10, 8, 16, 3):          # 8 / 16 / other: the capacity formula has a case of its own for each (M-C13-6)
             for e in exps:
                 if radix == 10 and e > 18:
+                    continue
+                if radix in (8, 16, 3) and (e > 15 or (tier == "quick" and e not in (0, 1, 8, 15))):
                     continue
                 T = sname(R.name, e, radix)
                 mag = max(abs(R.min), R.max)
